@@ -397,6 +397,47 @@ pub fn dispatch(f: &[&str]) -> String {
                 _ => "bad-kind".into(),
             }
         }
+        "builder.ops" => {
+            use lettre::message::{Mailbox, Message};
+            let mut b = Message::builder();
+            if !f[1].is_empty() {
+                for op in f[1].split(';') {
+                    let p: Vec<&str> = op.split(',').collect();
+                    let mbx = |p: &Vec<&str>| -> Option<Mailbox> {
+                        let name = if p[1] == "!" { None } else { Some(utf8(unhex(p[1]))?) };
+                        let addr: lettre::Address = utf8(unhex(p[2]))?.parse().ok()?;
+                        Some(Mailbox::new(name, addr))
+                    };
+                    b = match p[0] {
+                        "keepbcc" => b.keep_bcc(),
+                        "envelope" => {
+                            let from = if p[1] == "!" { None } else { match utf8(unhex(p[1])).and_then(|s| s.parse().ok()) { Some(a) => Some(a), None => return "bad-address".into() } };
+                            let to: Option<Vec<lettre::Address>> = p[2].split('|').map(|t| utf8(unhex(t)).and_then(|s| s.parse().ok())).collect();
+                            let Some(to) = to else { return "bad-address".into() };
+                            let Ok(e) = lettre::address::Envelope::new(from, to) else { return "bad-envelope".into() };
+                            b.envelope(e)
+                        }
+                        k => {
+                            let Some(m) = mbx(&p) else { return "bad-address".into() };
+                            match k { "from" => b.from(m), "to" => b.to(m), "cc" => b.cc(m), "bcc" => b.bcc(m), "reply_to" => b.reply_to(m), _ => b.sender(m) }
+                        }
+                    };
+                }
+            }
+            match b.body(String::from("x")) {
+                Ok(msg) => {
+                    let e = msg.envelope();
+                    let text = String::from_utf8_lossy(&msg.formatted()).to_string();
+                    let head = text.split("\r\n\r\n").next().unwrap_or("").to_string();
+                    let names: Vec<String> = head.split("\r\n").filter(|l| !l.starts_with(' ') && !l.starts_with('\t')).map(|l| l.split(':').next().unwrap_or("").to_ascii_lowercase()).collect();
+                    let bcc = names.iter().any(|n| n == "bcc");
+                    let count = |n: &str| names.iter().filter(|x| x.as_str() == n).count();
+                    format!("ok\t{}\t{}\t{}\tdate={},from={},mime={}", e.from().map(|a| hex(a.to_string().as_bytes())).unwrap_or_else(|| "!".into()),
+                        e.to().iter().map(|a| hex(a.to_string().as_bytes())).collect::<Vec<_>>().join("|"), bcc as u8, count("date"), count("from"), count("mime-version"))
+                }
+                Err(e) => format!("err\t{:?}", e),
+            }
+        }
         other => format!("UNKNOWN-FN {}", other),
     }
 }
